@@ -184,7 +184,7 @@ JudgeRecovery(e) ==
       Dropped(i) == \E m \in Salv : IsPfx(o.nodes[m].p, o.nodes[i].p)
       Kept == SortedSeq({i \in DOMAIN o.nodes : ~Dropped(i)})
       obsShapes == [k \in DOMAIN Kept |-> Shape(o.nodes[Kept[k]])]
-      expShapes == [k \in DOMAIN pr0.ns |-> Shape([pr0.ns[k] EXCEPT !.ann = @])]
+      expShapes == [k \in DOMAIN pr0.ns |-> Shape(pr0.ns[k])]
       S == SyntaxIx(o.diags)
   IN IF pr.ok \/ ~pr0.ok THEN TRUE      \* the filling happens to be a member (or the frame is broken): not a C14 case
      ELSE /\ J("C14", e, "no tree although only one member is malformed", o.has_tree)
